@@ -692,3 +692,27 @@ _FE = lambda enc: {'method': 'emit', 'host': FOREIGN, 'ev': 'msg',
 CONFIGS['ps_listener_enc_quick'] = dict(
     _LST, max_chan=1,
     inject=[_FE('pickle'), _FE('json'), _FE('jsonbytes'), _FE('dict')])
+
+# ---- thorough tier: three hosts, more clients, longer channel
+_B3 = dict(_BASE, hosts=['h1', 'h2', 'h3'],
+           host_of={'t1': 'h1', 't2': 'h2', 't3': 'h3'},
+           transports=['t1', 't2', 't3'], max_sid=3)
+CONFIGS['ps_imm3'] = dict(_B3, immediate=True, max_chan=1, write_only=True,
+                          rooms_q=False, rxdisc=False,
+                          emit_to=[('none', []), ('one', ['r1']),
+                                   ('list', ['r1', 's1'])],
+                          emit_skip=[('none', []), ('list', ['s1', 's2'])])
+CONFIGS['ps_delay3'] = dict(_B3, immediate=False, max_chan=2, rooms_q=False,
+                            rxdisc=False, lost=False, leave=False,
+                            close=False, max_sid=2,
+                            transports=['t1', 't3'],
+                            host_of={'t1': 'h1', 't3': 'h3'},
+                            emit_to=[('one', ['r1'])],
+                            emit_skip=[('none', [])])
+CONFIGS['ps_cb3'] = dict(_B3, immediate=False, max_chan=2, rooms=[],
+                         emit_to=[], emit_skip=[], cb_to=['s1', 's2'],
+                         ack_ids=[1, 2], rooms_q=False, rxdisc=False,
+                         lost=False, close=False, leave=False, disc=False,
+                         max_sid=2, transports=['t1', 't3'],
+                         host_of={'t1': 'h1', 't3': 'h3'})
+CONFIGS['ps_delay_chan3'] = dict(CONFIGS['ps_delay_quick'], max_chan=3)
